@@ -46,7 +46,7 @@ def Val.render : Val → String
   | .some v => "Some(" ++ v.render ++ ")"
   | .none => "None"
   | .list vs => "[" ++ renderList vs ++ "]"
-  | .ext k n => "X(" ++ k ++ "," ++ toString n ++ ")"
+  | .ext k n => k ++ "(" ++ toString n ++ ")"
 def renderFields : List (String × Val) → String
   | [] => ""
   | [(n, v)] => n ++ ": " ++ v.render
